@@ -91,6 +91,10 @@ def main(argv=None):
         jobs = [(h, o) for h, o in jobs if a.only in h.name]
     for h, o in jobs:
         o.setdefault("seed", seed)
+    # ---- oracle validation against a dense simulator (validates the trusted base, decides nothing) --------
+    from oracle import validate
+    ov_fails, ov_counts = validate.run(verbose=False)
+    print(f"[{prop}] oracle validation vs dense simulator: {sum(ov_counts.values())} cases, {len(ov_fails)} failures")
     print(f"[{prop}] tier={a.tier} jobs={len(jobs)} workers={a.workers} repo={git_head('/repo')}"
           f"{'+dirty' if git_dirty('/repo') else ''}")
     results = runner.run_jobs(jobs, workers=a.workers)
@@ -115,6 +119,31 @@ def main(argv=None):
         for v in tot.violations:
             all_viol.append((h, v))
 
+    if ov_fails:
+        errors.append(("oracle-validation", "; ".join(ov_fails[:5])))
+    # ---- engine/oracle cross-check: random concrete inputs satisfying the assumptions must pass the same harness
+    #      on the UNPATCHED code whenever the symbolic run discharged everything (differential, decides nothing) ---
+    sample_paths = []
+    for h, tot, err in results:
+        if tot is None or tot.violations:
+            continue
+        for mv in getattr(tot, "concrete_samples", []) or []:
+            v = {"name": "concrete-sample", "detail": "random model of the assumptions", "model": mv}
+            sample_paths.append((h, runner.write_replay(prop, h, v)))
+    srep = replay_batch_subprocess([p for _, p in sample_paths])
+    n_samples_ok = 0
+    for h, pth in sample_paths:
+        r = srep.get(pth, {"reproduced": True, "failures": [["?", "no replay output"]], "error": None})
+        if r["reproduced"] or r.get("error"):
+            errors.append((h.name, f"concrete sample FAILED on the real code although the symbolic run discharged every obligation "
+                                   f"(engine or oracle inconsistency): {r['failures'][:2]} {r.get('error')} replay={pth}"))
+        else:
+            n_samples_ok += 1
+            try:
+                os.unlink(pth)
+            except OSError:
+                pass
+    print(f"[{prop}] concrete cross-check: {n_samples_ok}/{len(sample_paths)} random concrete inputs pass the harness on the unpatched code")
     # ---- replay every solver model on the unpatched code ---------------------------------------------
     paths = []
     for h, v in all_viol:
@@ -165,7 +194,9 @@ def main(argv=None):
         from vf import evidence
 
         evidence.write(prop, a.tier, seed, mod, results, all_viol, wall, partial=bool(a.only),
-                       n_viol=n_viol, n_known=n_known, problems=[*vacuous, *inconclusive, *errors])
+                       n_viol=n_viol, n_known=n_known, problems=[*vacuous, *inconclusive, *errors],
+                       extra={"oracle_validation_cases": ov_counts, "oracle_validation_failures": len(ov_fails),
+                              "concrete_crosscheck_samples": len(sample_paths), "concrete_crosscheck_passed": n_samples_ok})
     status = 1 if n_viol else (2 if (errors or inconclusive or vacuous) else 0)
     tp = sum(t.paths for _, t, e in results if t)
     to = sum(t.obligations for _, t, e in results if t)
